@@ -79,7 +79,7 @@ def gen_disk_case(rng, nb=None, mode=None, cotan=None, small=False):
         if cotan and not G.nondegenerate(verts, fs, eps=0.05):
             continue
         onb = set(G.border_cycle(fs)[0])
-        if cotan and len(verts) - len(onb) > 16:
+        if cotan and len(verts) - len(onb) > 12:
             continue
         if len(verts) - len(onb) > 34:
             continue
@@ -106,7 +106,7 @@ def gen_cases(ctx):
             for mode in ("circle", "square", "custom"):
                 cases.append(gen_disk_case(rng, nb=nb, mode=mode, cotan=False))
             cases.append(gen_disk_case(rng, nb=nb, cotan=True))
-        for _ in range(120):
+        for _ in range(90):
             cases.append(gen_disk_case(rng))
         for _ in range(16):
             k, v, f = G.non_disk(rng)
@@ -123,6 +123,17 @@ def zlit(n):
 
 def zlist(xs):
     return coq_list([zlit(int(x)) for x in xs])
+
+
+def zbig(n):
+    """big integers as base-2^62 limbs of primitive integers (decimal Z literals parse quadratically in Coq)"""
+    if abs(n) < 10 ** 9:
+        return zlit(n)
+    a, limbs = abs(n), []
+    while a:
+        limbs.append("%d%%uint63" % (a & ((1 << 62) - 1)))
+        a >>= 62
+    return "(zbig %s [%s])" % ("true" if n < 0 else "false", "; ".join(limbs))
 
 
 def qlit(x):
@@ -267,7 +278,7 @@ def case_term(case, obs, cert):
     return ("(mk_case_p %s %s %s %s %s %s false %s %s %s %s %s %s %s %s %s %s %s %s %s %s)"
             % (zlit(len(case["verts"])), fz, coq_bool(case["cotan"]), cot, mode, custom, zlit(obs["ne"]),
                zlist(obs["free"]), zlist(obs["bnd"]), coq_list([fpair(p) for p in pool]), iV, iC, ifV, ifC,
-               coq_list([fpair(p) for p in turn_pairs(case, obs)]), zlit(cert["D"]), zlist(cert["NU"]), zlist(cert["NV"]),
+               coq_list([fpair(p) for p in turn_pairs(case, obs)]), zbig(cert["D"]), coq_list([zbig(x) for x in cert["NU"]]), coq_list([zbig(x) for x in cert["NV"]]),
                coq_bool(cert["posw"]), coq_bool(cert["D"].bit_length() <= 1500)))
 
 
@@ -448,6 +459,8 @@ def run(ctx):
 
     # verdicts
     reported = set()
+    fails.sort(key=lambda t: (len(cases[t[0]]["faces"]), t[0]))      # start from the smallest failing case of each class
+    t_search = __import__("time").time()
     for idx, key, msg in fails:
         if key in reported:
             continue
@@ -459,7 +472,8 @@ def run(ctx):
         small = case
         if case.get("disk") and key != "error":
             try:
-                small = shrink(case, key)
+                if __import__("time").time() - t_search < 25:
+                    small = shrink(case, key, budget=8)
             except Exception as ex:  # shrinking is best effort
                 ctx.log("shrink failed: %r" % ex)
         ob = core.run_impl("vf.impl.c17_driver", {"cases": [strip(small)]}, timeout=300)["obs"][0]
